@@ -1093,7 +1093,18 @@ class MultiTestResult(TestResult):
     def __init__(self, *results):
         # Setup _results first, as the base class __init__ assigns to failfast.
         self._results = list(map(ExtendedToOriginalDecorator, results))
-        super().__init__()
+        self._keeping_failfast(super().__init__)
+
+    def _keeping_failfast(self, reset):
+        # The base class (re)initialises itself by assigning to failfast,
+        # which here means assigning to every wrapped result: put back what
+        # each of them had.
+        saved = [result.failfast for result in self._results]
+        try:
+            return reset()
+        finally:
+            for result, failfast in zip(self._results, saved):
+                result.failfast = failfast
 
     def __repr__(self):
         return "<{} ({})>".format(
@@ -1152,7 +1163,7 @@ class MultiTestResult(TestResult):
         return self._dispatch("addUnexpectedSuccess", test, details=details)
 
     def startTestRun(self):
-        super().startTestRun()
+        self._keeping_failfast(super().startTestRun)
         return self._dispatch("startTestRun")
 
     def stopTestRun(self):
